@@ -2,6 +2,7 @@
 From Coq Require Import ZArith QArith Qcanon List Bool Permutation.
 Require Import QV.C02.Spec QV.C02.Model QV.C02.Proofs QV.C02.Proofs2 QV.C02.Proofs3.
 Require Import QV.C02.Stack QV.C02.ProofsStack QV.C02.Merge QV.C02.ProofsMerge QV.C02.Rewrite QV.C02.ProofsRw QV.C02.ProofsAccept.
+Require Import QV.C02.Flatten QV.C02.ProofsFlat QV.C02.Vol QV.C02.ProofsVol.
 Import ListNotations.
 Open Scope Qc_scope.
 
@@ -256,6 +257,54 @@ Proof.
     + vm_compute. do 3 right. left. reflexivity.
 Qed.
 Print Assumptions C02_volatile_update_refuted.
+
+(* ---- round 3: flatten_and_balance is a sequence of the modelled rewrites ------------------------------------------------- *)
+(* Flatten.fab = Loop.flatten_and_balance(depth) on the Loop model with windows (while loop + recursion on fuel, tied to
+   the code by the CFlatM cases: same logged rewrites, same result).  Whatever it returns is Rewrite.run_seq of the
+   steps it logged - for every loop, depth and fuel: a theorem of the model, no longer a per-run replay *)
+Theorem C02_flatten_is_rewrite_sequence : forall fuel d l l' st,
+  flatten_and_balance fuel d l = Some (l', st) -> exists lost, run_seq st l = Some (l', lost).
+Proof. intros fuel d l l' st H. exact (fab_is_run_seq fuel d 0 l l' st H). Qed.
+Print Assumptions C02_flatten_is_rewrite_sequence.
+
+(* hence (C02_rewrite_sequences) it keeps the duration, adds and moves nothing; what disappears are own windows of
+   loops it unrolled *)
+Theorem C02_flatten_windows : forall fuel d l l' st,
+  flatten_and_balance fuel d l = Some (l', st) -> sides_ok st l = true ->
+  ldur l' = ldur l /\ exists lost, Permutation (loop_windows l' ++ lost) (loop_windows l).
+Proof. exact fab_windows. Qed.
+Print Assumptions C02_flatten_windows.
+Example C02_flatten_nonvacuous :
+  let c := Loop 2 None [(0%N, Q2Qc 1, Q2Qc 1)] [Loop 3 (Some (Q2Qc 2)) [(1%N, Q2Qc 0, Q2Qc 1)] []; Loop 1 (Some (Q2Qc 1)) [] []] in
+  let l := Loop 1 None [(2%N, Q2Qc 0, Q2Qc 1)] [Loop 1 (Some (Q2Qc 1)) [] []; Loop 1 None [] [c]] in
+  match flatten_and_balance 50 1 l with
+  | Some (l', st) => sides_ok st l && (length st =? 2)%nat && (depth l' =? 1)%nat && (length (loop_windows l') =? 7)%nat
+  | None => false
+  end = true.
+Proof. vm_compute. reflexivity. Qed.
+
+(* ---- round 3: the positive statement about volatile updates (Loop level) ---------------------------------------------------- *)
+(* a = the program as built, b = the same shape with the updated counts.  Under the executable guard Vol.vwok (below
+   every loop only the LAST child contains changed counts, and a loop whose cached body duration went stale is
+   repeated once) the windows reported after the update (Model.vwin, cached durations) are exactly the windows of the
+   tree recomputed from scratch with the new counts.  The count of any loop satisfying this may change freely, in
+   particular the windows inside a volatile repetition tile with the new count. *)
+Theorem C02_volatile_follows : forall a b, vwok a b = true -> vwin a b = loop_windows (zip_rep a b).
+Proof. intros a b. exact (vwok_windows a b). Qed.
+Print Assumptions C02_volatile_follows.
+Theorem C02_volatile_unchanged : forall a b, stable a b = true -> vwin a b = loop_windows a /\ zip_rep a b = a.
+Proof. intros a b H. split; [now apply stable_vwin | now apply stable_zip]. Qed.
+Print Assumptions C02_volatile_unchanged.
+(* the guard is satisfiable with a real change, and it cannot simply be dropped *)
+Example C02_volatile_follows_nonvacuous :
+  let w n b := (n, Q2Qc b, Q2Qc 1) : window in
+  let a := Loop 1 None [w 0%N 0] [Loop 1 (Some (Q2Qc 1)) [] []; Loop 2 None [w 1%N 0] [Loop 1 (Some (Q2Qc 2)) [] []]] in
+  let b := Loop 1 None [w 0%N 0] [Loop 1 (Some (Q2Qc 1)) [] []; Loop 3 None [w 1%N 0] [Loop 1 (Some (Q2Qc 2)) [] []]] in
+  vwok a b && negb (Nat.eqb (length (vwin a b)) (length (loop_windows a))) = true.
+Proof. exact vwok_nonvacuous. Qed.
+Theorem C02_volatile_guard_needed : exists a b, vwok a b = false /\ vwin a b <> loop_windows (zip_rep a b).
+Proof. eexists. eexists. exact vwok_guard_needed. Qed.
+Print Assumptions C02_volatile_guard_needed.
 
 (* non-vacuity: a reversed repetition inside a sequence with renaming satisfies the hypotheses of C02_windows and
    C02_inside (a program is produced, all declarations inside their nodes) and reports 4 windows *)
